@@ -241,7 +241,7 @@ def rest(rep: Report, prog: Program) -> None:
         for n in prog._own_nodes(fn.node):
             if isinstance(n, ast.Attribute) and n.attr == "_events" and not fn.module.name.startswith("redress.strategies"):
                 rep.instance("R10.2", f"_events-use|{fn.qual}")
-                if fn.cls is ci and (fn.name in ("__init__", "_prune", "consume", "remaining") or owned_by(prog, fn, (f"{B}.consume", f"{B}.remaining", f"{B}._prune"))):
+                if fn.cls is not None and (fn.cls is ci or fn.cls in prog.mro(ci)) and (fn.name in ("__init__", "_prune", "consume", "remaining") or owned_by(prog, fn, (f"{B}.consume", f"{B}.remaining", f"{B}._prune"))):
                     rep.ok("R10.2")
                 else:
                     rep.fail("R10.2", f"_events-use|{fn.qual}", f"{fn.qual} touches Budget._events", where=fn.where(n), function=fn.qual)
